@@ -2,8 +2,8 @@ package worlds
 
 import (
 	"context"
-	"os"
 	"fmt"
+	"os"
 	"sort"
 	"strconv"
 	"strings"
@@ -85,24 +85,27 @@ type gProbe struct {
 	result    bool
 	seenAt    []string
 	stable    bool
+	chaos     bool // issued during the chaos phase (ownership in flux): only the "never claimed delivered without having been handed to anything" clause applies
 }
 
 type GossipWorld struct {
-	s         *simrt.Sim
-	cfg       GossipConfig
-	net       *fakeml.Network
-	inst      []*gInst
-	phase     int
-	viol      []Violation
-	faults    map[string]int
-	probes    []*gProbe
-	lastClaim map[ShardID]time.Duration
-	pending   int // harness tasks in flight
-	nextSt    int
-	pp        int
-	ppDone    map[string]int
-	delivered int
-	claimsN   int
+	s           *simrt.Sim
+	cfg         GossipConfig
+	net         *fakeml.Network
+	inst        []*gInst
+	phase       int
+	viol        []Violation
+	faults      map[string]int
+	probes      []*gProbe
+	lastClaim   map[ShardID]time.Duration
+	pending     int // harness tasks in flight
+	nextSt      int
+	pp          int
+	ppDone      map[string]int
+	delivered   int
+	claimsN     int
+	accepted    map[string]bool // "<kind>/<marker>" of everything an intra-proxy stream has accepted
+	chaosProbes int
 }
 
 func (w *GossipWorld) violate(prop, clause, format string, args ...any) {
@@ -118,7 +121,7 @@ func (w *GossipWorld) violateSig(prop, clause, sig, format string, args ...any) 
 }
 
 func NewGossipWorld(s *simrt.Sim) *GossipWorld {
-	w := &GossipWorld{s: s, faults: map[string]int{}, lastClaim: map[ShardID]time.Duration{}, ppDone: map[string]int{}}
+	w := &GossipWorld{s: s, faults: map[string]int{}, lastClaim: map[ShardID]time.Duration{}, ppDone: map[string]int{}, accepted: map[string]bool{}}
 	c := GossipConfig{}
 	c.N = 2 + s.Draw(2)
 	c.Shards = 1 + s.Draw(2)
@@ -175,9 +178,16 @@ func NewGossipWorld(s *simrt.Sim) *GossipWorld {
 			st := simio.NewStream(fmt.Sprintf("intra%d->%s", w.nextSt, peer.name), w.nextSt, ctx, 0)
 			omd, _ := metadata.FromOutgoingContext(ctx)
 			s.Log("intra stream %s opened: %s", st.Name, mdSummary(omd))
+			// what an intra-proxy stream has accepted, by probe marker (messages travel from the
+			// stream's server side, acknowledgements from its client side)
 			st.OnS2C = func(m *simio.Res) {
 				if msgs := m.GetMessages(); msgs != nil {
-					s.Log("intra stream %s: server side sends high=%d (dead=%v)", st.Name, msgs.ExclusiveHighWatermark, st.Dead())
+					w.accepted[fmt.Sprintf("msg/%d", msgs.ExclusiveHighWatermark)] = true
+				}
+			}
+			st.OnC2S = func(r *simio.Req) {
+				if ss := r.GetSyncReplicationState(); ss != nil {
+					w.accepted[fmt.Sprintf("ack/%d", ss.InclusiveLowWatermark)] = true
 				}
 			}
 			s.Spawn("intra-handler:"+st.Name, func() {
@@ -240,28 +250,26 @@ func probeMarker(id int) int64 { return int64(1000000 + id) }
 func (w *GossipWorld) drain() {
 	for _, in := range w.inst {
 		for _, sh := range w.shards() {
-			cl := in.claims[sh]
-			if cl == nil {
-				continue
-			}
-			for {
-				select {
-				case m := <-cl.msgCh:
-					if msgs := m.Resp.GetMessages(); msgs != nil {
-						mk := strconv.FormatInt(msgs.ExclusiveHighWatermark, 10)
-						in.gotMsgs[sidStr(sh)] = append(in.gotMsgs[sidStr(sh)], mk)
-						w.noteSeen("msg", msgs.ExclusiveHighWatermark, in.name+"/"+sidStr(sh))
+			for _, cl := range in.history[sh] { // every claim's channels, also those of released claims
+				for {
+					select {
+					case m := <-cl.msgCh:
+						if msgs := m.Resp.GetMessages(); msgs != nil {
+							mk := strconv.FormatInt(msgs.ExclusiveHighWatermark, 10)
+							in.gotMsgs[sidStr(sh)] = append(in.gotMsgs[sidStr(sh)], mk)
+							w.noteSeen("msg", msgs.ExclusiveHighWatermark, in.name+"/"+sidStr(sh))
+						}
+						continue
+					case a := <-cl.ackCh:
+						if st := a.Req.GetSyncReplicationState(); st != nil {
+							in.gotAcks[sidStr(sh)] = append(in.gotAcks[sidStr(sh)], st.InclusiveLowWatermark)
+							w.noteSeen("ack", st.InclusiveLowWatermark, in.name+"/"+sidStr(sh))
+						}
+						continue
+					default:
 					}
-					continue
-				case a := <-cl.ackCh:
-					if st := a.Req.GetSyncReplicationState(); st != nil {
-						in.gotAcks[sidStr(sh)] = append(in.gotAcks[sidStr(sh)], st.InclusiveLowWatermark)
-						w.noteSeen("ack", st.InclusiveLowWatermark, in.name+"/"+sidStr(sh))
-					}
-					continue
-				default:
+					break
 				}
-				break
 			}
 		}
 	}
@@ -282,7 +290,7 @@ func (w *GossipWorld) noteSeen(kind string, marker int64, where string) {
 
 // probe issues one delivery call on instance `in` and records what its tables promised.
 func (w *GossipWorld) probe(in *gInst, kind string, shard, other ShardID) {
-	p := &gProbe{id: len(w.probes) + 1, kind: kind, from: in.name, shard: shard, other: other}
+	p := &gProbe{id: len(w.probes) + 1, kind: kind, from: in.name, shard: shard, other: other, chaos: w.phase == 0}
 	w.probes = append(w.probes, p)
 	w.task(fmt.Sprintf("probe%d:%s:%s", p.id, kind, in.name), func() {
 		// what do this instance's own tables say right now?
@@ -306,9 +314,14 @@ func (w *GossipWorld) probe(in *gInst, kind string, shard, other ShardID) {
 		mk := probeMarker(p.id)
 		w.s.Log("probe #%d %s from %s to %s (other %s): local=%v owners=%v", p.id, kind, in.name, sidStr(shard), sidStr(other), p.expLocal, owners)
 		if kind == "msg" {
+			msgs := &replicationv1.WorkflowReplicationMessages{ExclusiveHighWatermark: mk}
+			if p.chaos {
+				// a task-bearing message: a watermark-only one is, by design, replayed to a shard
+				// that registers again (pending-watermark replay), which is not a duplicate delivery
+				msgs.ReplicationTasks = []*replicationv1.ReplicationTask{{SourceTaskId: mk - 1}}
+			}
 			msg := &proxy.RoutedMessage{SourceShard: other, Resp: &adminservice.StreamWorkflowReplicationMessagesResponse{
-				Attributes: &adminservice.StreamWorkflowReplicationMessagesResponse_Messages{
-					Messages: &replicationv1.WorkflowReplicationMessages{ExclusiveHighWatermark: mk}}}}
+				Attributes: &adminservice.StreamWorkflowReplicationMessagesResponse_Messages{Messages: msgs}}}
 			p.result = in.sm.DeliverMessagesToShardOwner(shard, msg, sc, noopLoggers{}.Get(""))
 		} else {
 			ra := &proxy.RoutedAck{TargetShard: other, Req: &adminservice.StreamWorkflowReplicationMessagesRequest{
@@ -409,6 +422,17 @@ func (w *GossipWorld) Actions() []simrt.Action {
 				} else if cl.active && cl.ready {
 					add("release:"+in.name+":"+sidStr(sh), 1, false, func() { w.release(in, cl) })
 				}
+			}
+			if formed && w.chaosProbes < 12 {
+				// a delivery call while ownership is in flux (claims moving, instances leaving)
+				add("probe-chaos:"+in.name, 1, false, func() {
+					w.chaosProbes++
+					shs := w.shards()
+					sh := shs[w.s.Draw(len(shs))]
+					other := sid(3-sh.ClusterID, int32(1+w.s.Draw(w.cfg.Shards)))
+					kind := []string{"msg", "ack"}[w.s.Draw(2)]
+					w.probe(in, kind, sh, other)
+				})
 			}
 			if w.cfg.Leaves && len(live) > 1 {
 				add("FAULT leave:"+in.name, 1, true, func() {
@@ -664,6 +688,23 @@ func (w *GossipWorld) routingProbes() {
 			} else if len(p.seenAt) != 0 {
 				w.violate("C09", "reported-undelivered-but-delivered", "%s probe #%d from %s to %s returned false but the message was seen at %v", p.kind, p.id, p.from, sidStr(p.shard), p.seenAt)
 			}
+		}
+	}
+	// delivery calls made while ownership was in flux: whatever the tables said at the time, a
+	// call that reported success must have handed the message to something - a local stream's
+	// channel or an intra-proxy stream that accepted it (what becomes of it on that hop when
+	// the owner goes away is C04's recorded finding) - and one that reported failure must not
+	// have delivered it; twice is checked as it happens
+	for _, p := range w.probes[:first] {
+		if !p.chaos || !p.done {
+			continue
+		}
+		key := fmt.Sprintf("%s/%d", p.kind, probeMarker(p.id))
+		if p.result && len(p.seenAt) == 0 && !w.accepted[key] {
+			w.violate("C09", "claimed-delivered-but-handed-to-nothing", "%s probe #%d from %s to %s (issued while ownership was in flux): the call reported delivery, but the message reached no local stream and no intra-proxy stream accepted it", p.kind, p.id, p.from, sidStr(p.shard))
+		}
+		if !p.result && len(p.seenAt) != 0 {
+			w.violate("C09", "reported-undelivered-but-delivered", "%s probe #%d from %s to %s (issued while ownership was in flux) returned false but the message was seen at %v", p.kind, p.id, p.from, sidStr(p.shard), p.seenAt)
 		}
 	}
 }
